@@ -148,6 +148,7 @@ _c("DataDump", "op", "Any", "NoData", [], lambda d, w: NODATA, recorded=False)
 _c("VValueProbe", "probe", "Float", None, [], lambda d, w: d)
 _c("VScaledProbe", "probe", "Float", None, [("scale", 1.0)], lambda d, w, scale=1.0: d * scale)
 _c("VOffsetProbe", "probe", "Float", None, [("offset", REQ)], lambda d, w, offset: d + offset)
+_c("VNoneProbe", "probe", "Float", None, [], lambda d, w: None)
 _c("FloatBasicProbe", "probe", "Float", None, [], _basic_probe, recorded=False)
 _c("FloatCollectValueProbe", "probe", "Float", None, [], lambda d, w: d, recorded=False)
 _c("CopyDataProbe", "probe", "Any", None, [], lambda d, w: d, recorded=False)
@@ -390,6 +391,7 @@ class NodeTrace:
     params: dict = field(default_factory=dict)      # name -> resolved value
     origins: dict = field(default_factory=dict)     # name -> ("config"|"default"|"context", producer index | "initial" | None)
     failed: Optional[str] = None
+    leaf_range: tuple = (0, 0)      # indices into Result.leaves produced by this node
 
 
 @dataclass
@@ -438,6 +440,7 @@ def run_pipeline(nodes: list, data: Any = NODATA, ctx: Optional[dict] = None, *,
     for nm in models[: upto if upto is not None else len(models)]:
         nt = NodeTrace(nm.index, nm.label, dict(ctx), data_in=data)
         res.nodes.append(nt)
+        _leaf0 = len(res.leaves)
 
         def fail(kind, detail=None, incidental=False):
             res.ok = False
@@ -485,7 +488,10 @@ def run_pipeline(nodes: list, data: Any = NODATA, ctx: Optional[dict] = None, *,
         try:
             if nm.shorthand:
                 kind = nm.shorthand[0]
-                if kind == "rename":
+                if kind in ("rename", "delete") and resolved.get(nm.shorthand[1]) is None:
+                    res.dontcare.append(("none_valued_key", nm.index))   # documented nowhere: treated as "nothing to do"
+                    out_data = data
+                elif kind == "rename":
                     _, src, dst = nm.shorthand
                     ctx[dst] = resolved[src]
                     producer[dst] = nm.index
@@ -590,6 +596,7 @@ def run_pipeline(nodes: list, data: Any = NODATA, ctx: Optional[dict] = None, *,
         data = out_data
         nt.data_out = data
         nt.ctx_after = dict(ctx)
+        nt.leaf_range = (_leaf0, len(res.leaves))
     res.data, res.ctx = data, dict(ctx)
     return res
 
